@@ -286,7 +286,63 @@ func c13Run(scn *c13Scn) c13Obs {
 		o.SvConn = b2i(sc.VerifTransport().Connected())
 	}
 
-	if scn.Init == "clientclose" {
+	finishedFirst := -1
+	if scn.Init == "hlserverfinish" || scn.Init == "hlserverfail" {
+		// the high-level Client, whose session the server ends: the Client goes on to a new session for its next
+		// operation - and the connection of the session that ended is closed, not left behind.  What is observed of
+		// the client side: the transport the factory handed out first, once the Client has moved on.
+		var tmu sync.Mutex
+		var handed []lime.Transport
+		ccfg := lime.NewClientConfig()
+		ccfg.Node = lime.Node{Identity: lime.Identity{Name: "cli", Domain: "verif.test"}, Instance: "i1"}
+		ccfg.ChannelBufferSize = scn.Cap
+		ccfg.Authenticator = lime.GuestAuthenticator
+		ccfg.NewTransport = func(ctx context.Context) (lime.Transport, error) {
+			t, err := dial(ctx)
+			if err == nil {
+				tmu.Lock()
+				handed = append(handed, t)
+				tmu.Unlock()
+			}
+			return t, err
+		}
+		client := lime.NewClient(ccfg, &lime.EnvelopeMux{})
+		if err := client.Establish(ctx); err != nil {
+			o.Note = "establish: " + err.Error()
+		}
+		sc := theServerChannel()
+		if sc != nil {
+			fctx, fc := context.WithTimeout(ctx, 8*time.Second)
+			if scn.Init == "hlserverfail" {
+				_ = sc.FailSession(fctx, &lime.Reason{Code: 42, Description: "scripted"})
+			} else {
+				_ = sc.FinishSession(fctx)
+			}
+			fc()
+		}
+		observeServer(sc)
+		finishedFirst = int(atomic.LoadInt32(&finished)) // (the Client's second session will end as well)
+		// the next operations of the application: the Client notices that its session is over and builds a new one
+		moved := waitUntil(6*time.Second*slack, func() bool {
+			sctx, scc := context.WithTimeout(ctx, time.Second)
+			_ = client.SendMessage(sctx, msg("after", "x"))
+			scc()
+			tmu.Lock()
+			defer tmu.Unlock()
+			return len(handed) >= 2
+		})
+		if !moved {
+			o.Note += "the client did not build a new session; "
+		}
+		time.Sleep(20 * time.Millisecond)
+		tmu.Lock()
+		if len(handed) > 0 {
+			o.ClAfter = b2i(handed[0].Connected())
+		}
+		tmu.Unlock()
+		_ = client.Close()
+		o.ClState = "n/a"
+	} else if scn.Init == "clientclose" {
 		// the high-level Client: its channel is not accessible, the client side is observed through the census
 		ccfg := lime.NewClientConfig()
 		ccfg.Node = lime.Node{Identity: lime.Identity{Name: "cli", Domain: "verif.test"}, Instance: "i1"}
@@ -432,6 +488,9 @@ func c13Run(scn *c13Scn) c13Obs {
 		closeServer()
 	}
 	o.Finished = int(atomic.LoadInt32(&finished))
+	if finishedFirst >= 0 {
+		o.Finished = finishedFirst
+	}
 	waitUntil(10*time.Second, func() bool { return limeGoroutines() <= base })
 	o.Gor = limeGoroutines() - base
 	if o.Gor < 0 {
@@ -534,7 +593,10 @@ func coqOptBool(v int) string {
 
 func (c *c13Case) coq() string {
 	inits := map[string]string{"clientfinish": "IClientFinish", "serverfinish": "IServerFinish", "serverfail": "IServerFail",
-		"clientclose": "IClientClose", "serverclose": "IServerClose", "crossfail": "ICrossFail"}
+		"clientclose": "IClientClose", "serverclose": "IServerClose", "crossfail": "ICrossFail",
+		// the same endings seen through a high-level Client (only the server side and the fate of the client's old
+		// connection are observed)
+		"hlserverfinish": "IServerFinish", "hlserverfail": "IServerFail"}
 	del := coqfmt.None
 	if c.Obs.Delivered >= 0 {
 		del = coqfmt.Some(coqfmt.Nat(c.Obs.Delivered))
@@ -609,6 +671,12 @@ func runC13(env *Env) error {
 					scns = append(scns, c13Scn{Kind: k, Init: in, Cap: cp, ToSv: 8 + 4*cp + first, Mix: true})
 				}
 			}
+		}
+	}
+	// a high-level Client whose session the server ends: it moves on to a new session and closes the old connection
+	for _, k := range kinds {
+		for _, in := range []string{"hlserverfinish", "hlserverfail"} {
+			scns = append(scns, c13Scn{Kind: k, Init: in, Cap: 4})
 		}
 	}
 	extra := env.Pick(0, 60)
